@@ -92,7 +92,7 @@ def check(prop, tier, seed):
     for m in mods.values():
         for j in m.jobs(tier):
             relevant = prop in j.props or any(prop in c.props for c in j.contract.clauses) or \
-                any((not callable(con)) and any(prop in c.props for c in con.clauses) for _, con in j.stubs)
+                any((not callable(st_[1])) and any(prop in c.props for c in st_[1].clauses) for st_ in j.stubs)
             if getattr(j, 'serves', None):
                 relevant = prop in j.serves
             if relevant:
